@@ -9,6 +9,7 @@ CONSTANTS
   DSet = {0, 1, 2, 3, 4, 5, 6, 7, 8, 9, 10, 11, 12, 13, 14, 15, 16, 17}
   SliceSet = {1, 2, 3, 4}
   SortCols = {1, 2, 3, 4}
+  SeedSet = {0}
   DoEmit = TRUE
 INVARIANT LawProductTranspose
 INVARIANT LawDistributive
